@@ -530,5 +530,29 @@ func genBinOpCase(r *rand.Rand) ([]MemRec, mexprIn, []evalIn) {
 		inner := bin(pick(r, []string{"add", "sub", "mul"}), left, litExpr(scalars[r.Intn(len(scalars))]), false)
 		e = bin(pick(r, []string{"add", "sub", "mul", "div", "and", "or", "unless"}), inner, right, false)
 	}
+	if r.Intn(2) == 0 {
+		// vectors that change from step to step: records on even seconds, window edges on odd seconds (away from C09's subject)
+		for i := range recs {
+			recs[i].TS = []int{mBase + 2*(i+1) + 10*r.Intn(3), 0}
+		}
+		sort.SliceStable(recs, func(a, b int) bool { return recs[a].TS[0] < recs[b].TS[0] })
+		for i := range recs {
+			recs[i].ID = i + 1
+		}
+		var narrow func(x *mexprIn)
+		narrow = func(x *mexprIn) {
+			if x == nil {
+				return
+			}
+			if x.T == "range" {
+				x.Range = 4 + 2*r.Intn(3)
+			}
+			narrow(x.E)
+			narrow(x.A)
+			narrow(x.B)
+		}
+		narrow(e)
+		return recs, *e, []evalIn{{Start: mBase + 1, End: mBase + 49, Step: 6}, {Start: mBase + 13, End: mBase + 13, Step: 0}}
+	}
 	return recs, *e, wideEvals
 }
